@@ -193,6 +193,21 @@ def Z():
     return None
 
 
+def EE():
+    """assigning None where it is not allowed destroys the existing input"""
+    m = _reset()
+    A_ = m.new_space("A")
+    A_.new_cells("a", formula="def a(x):\n    return x")
+    A_.a[1] = 200
+    try:
+        A_.a[1] = None
+    except Exception:     # noqa
+        pass
+    else:
+        return "None accepted"
+    return None if dict(A_.a) == {1: 200} else "input lost: %r" % dict(A_.a)
+
+
 # ------------------------------------------------------------------ C03
 def B():
     """redefining a base cells overwrites copies deriving from an override in between"""
@@ -572,7 +587,7 @@ def R():
     return None
 
 
-ALL = [A, F, G, U, I, J, K, L, T, Z, B, D, E, a, b, c, H, W, X, V, Y, AA, BB, CC, DD, M, N, O, P, Q, R]
+ALL = [A, F, G, U, I, J, K, L, EE, T, Z, B, D, E, a, b, c, H, W, X, V, Y, AA, BB, CC, DD, M, N, O, P, Q, R]
 
 
 if __name__ == "__main__":
